@@ -15,6 +15,8 @@ type Pubrel struct {
 	// V5
 	Code       codes.Code
 	Properties *Properties
+	// Dup is the DUP flag MQTT 3.1 had on PUBREL (never set when decoding later versions)
+	Dup bool
 }
 
 func (p *Pubrel) String() string {
@@ -28,6 +30,7 @@ func NewPubrelPacket(fh *FixHeader, r io.Reader) (*Pubrel, error) {
 	if fh.Flags&^0x08 != FlagPubrel {
 		return nil, codes.ErrMalformed
 	}
+	p.Dup = fh.Flags&0x08 != 0
 	err := p.Unpack(r)
 	if err != nil {
 		return nil, err
@@ -45,6 +48,9 @@ func (p *Pubrel) NewPubcomp() *Pubcomp {
 // Pack encodes the packet struct into bytes and writes it into io.Writer.
 func (p *Pubrel) Pack(w io.Writer) error {
 	p.FixHeader = &FixHeader{PacketType: PUBREL, Flags: FlagPubrel}
+	if p.Dup {
+		p.FixHeader.Flags |= 0x08
+	}
 	bufw := getBuffer()
 	defer putBuffer(bufw)
 	writeUint16(bufw, p.PacketID)
